@@ -58,6 +58,7 @@ struct Block {
 	bool arena = false;
 	int zone = 0;              // 0: run zone (wiped after every run), 1: model zone (persistent)
 	bool reused = false;
+	size_t align = 16;          // tiny slab blocks: alignment class
 	std::vector<uint8_t> prot;  // per page, library view (mmap kinds) / RW for heap
 	std::vector<int8_t> hprot;  // per page harness override (-1 = none)
 };
@@ -75,6 +76,21 @@ static uintptr_t g_arena = 0;
 // deterministically instead of corrupting the real heap.
 struct Zone { size_t first_page; size_t max_pages; size_t bump; size_t high; };
 static Zone g_zone[2];
+// Tiny-block slab (plain variant). Blocks below OBJ_BLOCK come from a bump region at the end of zone 0. Which
+// address a request gets is a function of the run's history and of the op's heap policy (HP_REUSE_TINY: LIFO reuse
+// of a freed block of the same size class, preferring one that was freed by the same kind of request), never of the
+// real allocator's state: the library compares small-object addresses too (a dataset struct is 16 bytes).
+static const size_t TINY_BYTES = (size_t)8 << 30, TINY_STEP = (size_t)16 << 20;
+static uintptr_t g_tiny_lo = 0;
+static size_t g_tiny_bump = 0, g_tiny_commit = 0, g_tiny_high = 0;
+struct TinyFree { uintptr_t p; const char *op_name; int req_ord; };
+static std::map<std::pair<size_t, size_t>, std::vector<TinyFree>> *g_tiny_free_p = nullptr;
+#define g_tiny_free (*g_tiny_free_p)
+// warm-up history: every heap request is served by the real allocator, so a process-wide one-time allocation the
+// library makes there (a lazily built table, a static with a heap member) survives the wiping of the arena
+static bool g_warmup = false;
+void set_warmup(bool on) { g_warmup = on; }
+static inline bool in_tiny_zone(uintptr_t a) { return g_tiny_lo && a >= g_tiny_lo && a < g_tiny_lo + TINY_BYTES; }
 static uint64_t g_heap_seed = 0;
 static uint64_t g_alloc_counter = 0;
 static Ledger g_ledger;
@@ -152,6 +168,7 @@ std::string describe_addr(const void *p) {
 	bool guard = false;
 	Block *b = find_containing(a, &guard);
 	if (!b) {
+		if (in_tiny_zone(a)) return "tiny_zone_not_live";
 		if (kArena && a >= g_arena && a < g_arena + ARENA_BYTES) return a >= g_arena + g_zone[1].first_page * PG ? "model_arena_unallocated" : "arena_unallocated";
 		return "foreign";
 	}
@@ -259,6 +276,35 @@ static void arena_free(Block &b) {
 	g_freelist[std::make_pair(b.npages, (int)is_mmap + 2 * b.zone)].push_back(b.page_lo);
 }
 
+// ------------------------------------------------------------------ tiny slab
+static void *tiny_alloc(size_t size, size_t align, OpCtx *ctx) {
+	size_t cs = ((size ? size : 1) + 15) & ~(size_t)15;
+	size_t al = align < 16 ? 16 : align;
+	if (ctx->heap_policy & HP_REUSE_TINY) {
+		auto it = g_tiny_free.find(std::make_pair(cs, al));
+		if (it != g_tiny_free.end() && !it->second.empty()) {
+			auto &v = it->second;
+			size_t pick = v.size() - 1;
+			for (size_t i = v.size(); i-- > 0;) if (v[i].op_name == ctx->op_name && v[i].req_ord == ctx->requests) { pick = i; break; }
+			uintptr_t p = v[pick].p;
+			v.erase(v.begin() + (long)pick);
+			++g_stats.reuse_tiny;
+			return (void *)p;
+		}
+	}
+	size_t off = (g_tiny_bump + al - 1) & ~(al - 1);
+	if (off + cs > TINY_BYTES) { fprintf(stderr, "rxsim: tiny zone exhausted\n"); abort(); }
+	while (off + cs > g_tiny_commit) { arena_protect(g_tiny_lo + g_tiny_commit, TINY_STEP / PG, PROT_READ | PROT_WRITE); g_tiny_commit += TINY_STEP; }
+	g_tiny_bump = off + cs;
+	if (g_tiny_bump > g_tiny_high) g_tiny_high = g_tiny_bump;
+	return (void *)(g_tiny_lo + off);
+}
+static void tiny_free(const Block &b) {
+	size_t cs = ((b.size ? b.size : 1) + 15) & ~(size_t)15;
+	memset((void *)b.user, 0xDD, cs);
+	g_tiny_free[std::make_pair(cs, b.align)].push_back(TinyFree{b.user, b.op_name, b.req_ord});
+}
+
 // ------------------------------------------------------------------ request handling
 static bool should_fail(OpCtx *ctx, int kind) {
 	for (int f : ctx->faults)
@@ -274,18 +320,19 @@ static void *lib_alloc(OpCtx *ctx, size_t size, size_t align, int kind) {
 	rt::g_log.ev("req", ctx->task, ctx->op_index, (uint64_t)kind, (uint64_t)size, (uint64_t)ctx->requests * 2 + (fail ? 1 : 0));
 	void *res = nullptr;
 	if (!fail) {
-		if (kArena && size >= OBJ_BLOCK) {
+		if (kArena && size >= OBJ_BLOCK && !g_warmup) {
 			Block *b = arena_alloc(size, align, kind, ctx, false);
 			if (!b) { fprintf(stderr, "rxsim: arena exhausted\n"); abort(); }
 			res = (void *)b->user;
 		} else {
 			void *p = nullptr;
-			if (kind == RQ_MEMALIGN) { if (posix_memalign(&p, align < sizeof(void *) ? sizeof(void *) : align, size) != 0) p = nullptr; }
+			if (kArena && !g_warmup) p = tiny_alloc(size, align, ctx);
+			else if (kind == RQ_MEMALIGN) { if (posix_memalign(&p, align < sizeof(void *) ? sizeof(void *) : align, size) != 0) p = nullptr; }
 			else p = malloc(size ? size : 1);
 			if (!p) { fprintf(stderr, "rxsim: real allocator failed\n"); abort(); }
 			fill_noise(p, size, rt::mix64(g_heap_seed, ++g_alloc_counter));
 			Block b;
-			b.user = (uintptr_t)p; b.size = size; b.kind = kind; b.state = ST_LIVE;
+			b.user = (uintptr_t)p; b.size = size; b.kind = kind; b.state = ST_LIVE; b.align = align < 16 ? 16 : align;
 			b.op_index = ctx->op_index; b.req_ord = ctx->requests; b.op_name = ctx->op_name; b.owner_class = ctx->owner_class;
 			g_blocks[(uintptr_t)p] = std::move(b);
 			res = p;
@@ -329,7 +376,7 @@ static bool lib_free(void *p) {
 			return true;
 		}
 	}
-	if (!b) return false;
+	if (!b) return in_tiny_zone((uintptr_t)p); // a slab block of a finished run: nothing to give back
 	if (b->kind == RQ_MMAP || b->kind == RQ_MMAP_HUGE) { anomaly("BAD_FREE", "free_of_mapping owner=" + owner_of(*b)); return true; }
 	if (b->state == ST_FREED) { anomaly("DOUBLE_FREE", "owner=" + owner_of(*b)); return true; }
 	if (b->arena && b->zone == 1) { arena_free(*b); return true; } // reference-model object: no ledger, no log
@@ -339,7 +386,10 @@ static bool lib_free(void *p) {
 	rt::g_log.ev("free", ctx ? ctx->task : 0, ctx ? ctx->op_index : -1, (uint64_t)b->kind, (uint64_t)b->size);
 	--g_ledger.blocks; g_ledger.bytes -= b->size;
 	if (b->arena) arena_free(*b);
-	else {
+	else if (in_tiny_zone(b->user)) {
+		tiny_free(*b);
+		g_blocks.erase(b->user);
+	} else {
 		memset((void *)b->user, 0xDD, b->size);
 		void *q = (void *)b->user;
 		g_blocks.erase(b->user);
@@ -358,6 +408,7 @@ void process_init() {
 	g_blocks_p = new std::map<uintptr_t, Block>();
 	g_freelist_p = new std::map<std::pair<size_t, int>, std::vector<uintptr_t>>();
 	g_anomalies_p = new std::vector<Anomaly>();
+	g_tiny_free_p = new std::map<std::pair<size_t, size_t>, std::vector<TinyFree>>();
 	--t_in_seam;
 	g_ready = true;
 	if (kArena) {
@@ -365,8 +416,9 @@ void process_init() {
 		if (p == MAP_FAILED) { fprintf(stderr, "rxsim: cannot reserve arena: %s\n", strerror(errno)); abort(); }
 		g_arena = (uintptr_t)p;
 		size_t pages = ARENA_BYTES / PG;
-		g_zone[0] = Zone{0, pages / 4 * 3, 0, 0};
+		g_zone[0] = Zone{0, pages / 4 * 3 - TINY_BYTES / PG, 0, 0};
 		g_zone[1] = Zone{pages / 4 * 3, pages / 4, 0, 0};
+		g_tiny_lo = g_arena + (pages / 4 * 3 - TINY_BYTES / PG) * PG;
 	}
 }
 
@@ -378,6 +430,8 @@ static void wipe_run_zone() {
 		if (it->first.second >= 2) ++it; else it = g_freelist.erase(it);
 	}
 	g_zone[0].bump = 0;
+	g_tiny_free.clear();
+	g_tiny_bump = 0;
 }
 
 void run_begin(uint64_t heap_seed) {
@@ -399,6 +453,7 @@ void run_end() {
 		arena_protect(g_arena, g_zone[0].high + 2, PROT_NONE);
 		g_zone[0].high = 0;
 	}
+	if (kArena && g_tiny_high) { madvise((void *)g_tiny_lo, (g_tiny_high + PG - 1) & ~(PG - 1), MADV_DONTNEED); g_tiny_high = 0; }
 	wipe_run_zone();
 }
 
